@@ -17,7 +17,7 @@
 const char *const dsim_property = "C05";
 namespace {
 constexpr int MAXC = 8, MAXSTEP = 6, NF = 4;
-enum Op { PAUSE = 0, RESOLVE_DISCARD, RESOLVE_AWAIT, AWAIT_FUT, DETACH_CHILD, AWAIT_CHILD, START_CHILD, LOCK_REL_DISCARD, LOCK_REL_AWAIT, Q_PUSH, Q_POP, MERGE_DISCARD, NOPS };
+enum Op { PAUSE = 0, RESOLVE_DISCARD, RESOLVE_AWAIT, AWAIT_FUT, DETACH_CHILD, AWAIT_CHILD, START_CHILD, LOCK_REL_DISCARD, LOCK_REL_AWAIT, Q_PUSH, Q_POP, MERGE_DISCARD, CSP_DISCARD, CSP_AWAIT, CSP_HOLD, NOPS };
 struct StepD { int op, arg; };
 struct Script { int n; StepD st[MAXSTEP]; };
 
@@ -138,6 +138,29 @@ cocls::async<void> coro(int id) {
                 if (susp) M.seg_begin(id);
             }
             break; }
+        case CSP_DISCARD: case CSP_AWAIT: case CSP_HOLD: {
+            // coro_queue::create_suspend_point(fn): what fn makes ready (here: by a discarded resolution inside fn) is taken back out of the
+            // ready queue into a suspend point - nothing else in the queue may be touched - which is then discarded, awaited, or held
+            // across a pause() and discarded afterwards
+            if (M.fut_resolved[a]) break;
+            M.fut_resolved[a] = true;
+            Readied rd; rd.m = M.fut_waiters[a]; M.fut_waiters[a].clear();
+            auto sp = cocls::coro_queue::create_suspend_point([&] { proms[a](); });
+            if (op == CSP_AWAIT) {
+                bool susp = await_effect(id, rd);
+                if (susp) M.seg_end(id, true);
+                co_await sp;
+                if (susp) M.seg_begin(id);
+                break;
+            }
+            if (op == CSP_HOLD) {      // the carried coroutines are not queued while the suspend point is held: pause() runs everybody else, not them
+                std::vector<int> snap; M.all_ready(snap); M.pause_snap.push_back(snap); M.pause_owner.push_back(id);
+                M.batch({id}); if (M.ready.size() == 1 && M.ready.front().size() == 1) M.direct.insert(id);
+                M.seg_end(id, true); co_await cocls::pause(); M.seg_begin(id);
+            }
+            discard_effect(id, rd);
+            sp.clear();
+            break; }
         case AWAIT_FUT: {
             if (M.fut_resolved[a]) { co_await *futs[a]; break; }
             M.fut_waiters[a].push_back(id); M.state[id] = Model::SUSPENDED;
@@ -236,7 +259,7 @@ void single_thread() {
     int bare_fut = dsim::choose(NF + 2);        // < NF: a generator body stepped from ordinary code resolves that future and awaits the suspend point
     for (int i = 0; i < M.ncoro; i++) { M.sc[i].n = dsim::choose(MAXSTEP + 1); for (int k = 0; k < M.sc[i].n; k++) { M.sc[i].st[k].op = dsim::choose(NOPS); int op = M.sc[i].st[k].op; M.sc[i].st[k].arg = (op == DETACH_CHILD || op == AWAIT_CHILD || op == START_CHILD) ? i + 1 + (int)dsim::choose(3) : (int)dsim::choose(NF); } }
     dsim::plan_note("single-thread n=%d", M.ncoro);
-    for (int i = 0; i < M.ncoro; i++) { dsim::plan_note(" C%d:", i); for (int k = 0; k < M.sc[i].n; k++) dsim::plan_note("%c%d", "prRfdasmMuoG"[M.sc[i].st[k].op], M.sc[i].st[k].arg); }
+    for (int i = 0; i < M.ncoro; i++) { dsim::plan_note(" C%d:", i); for (int k = 0; k < M.sc[i].n; k++) dsim::plan_note("%c%d", "prRfdasmMuoGcCh"[M.sc[i].st[k].op], M.sc[i].st[k].arg); }
     cocls::future<void> fstore[NF]; cocls::mutex mxs; auto qs = std::make_unique<cocls::queue<long>>();
     for (int f = 0; f < NF; f++) { futs[f] = &fstore[f]; proms[f] = fstore[f].get_promise(); }
     mx = &mxs; q = qs.get();
